@@ -25,6 +25,9 @@ def h_graph_NewExecutionGraphForRetry : Nat := 0x859d7c2a46d2316d
 /-- hash of the normalised skeleton of clearState (internal/dag/scheduler/node.go) -/
 def h_graph_node_clearState : Nat := 0x0cd364175773c3b7
 
+/-- hash of the normalised skeleton of * (internal/dag/scheduler/graph.go) -/
+def h_rest_graph_dag_scheduler_graph_go : Nat := 0x259aeadfae735839
+
 def hasCycleFacts : List String := ["range g.to", "range g.nodes", "if inDegrees[node.id] != 0 => continue", "for len(q) > 0", "range tos", "inDegrees[to]--", "if inDegrees[to] == 0 => q = append(q, to)", "range inDegrees", "if degree > 0 => return true"]
 
 def setupRetryFacts : List String := ["if len(node.data.Step.Depends) == 0 => frontier = append(frontier, node.id)", "if retry[u] || dict[u] == NodeStatusError || dict[u] == NodeStatusCancel || dict[u] == NodeStatusRunning || dict[u] == NodeStatusNone => g.dict[u].clearState(); retry[u] = true", "if retry[u] => retry[v] = true"]
